@@ -27,6 +27,8 @@ TIERS = {
     "quick": {"runs": 1500, "budget_s": 420, "det_pairs": 3},
     "thorough": {"runs": 200000, "budget_s": 1500, "det_pairs": 8},
 }
+SIM_TIME_NOTE = ("virtual clock (time.time / time.sleep of the system's process are simulated): simulated_time_s is the time the system spent "
+                 "waiting; the unchanged tree never sleeps, so it is 0 unless a changed tree retries or backs off")
 RUN_TIMEOUT = 600
 SHRINK_BUDGET = 80
 RULE = (
@@ -457,6 +459,7 @@ def _exec_step(W, st, model, log, stats, bump, seed, progress=False):
     src_sha = {p.name: sha1_file(p) for p in (W.bin, W.cbin, W.ch) if p.exists()}
     res = session.run_step(W.root, do_step, st, fault, W.cfg, pool_seed, read_events=True)
     stats["steps"] += len(res["events"])
+    stats["sim_time"] = stats.get("sim_time", 0.0) + float(res.get("clock") or 0.0)      # simulated seconds the system spent sleeping / waiting
     if not progress:
         stats.setdefault("_step_events", []).append(res["events"])
     fired = res["fired"] if res["fired"] and res["fired"]["kind"] in ("kill", "torn", "io_error", "interrupt", "short") else None
